@@ -1,6 +1,11 @@
 /-
-  Property C20 — property theorems only (helper lemmas live next to the model).
-  Stub: nothing claimed yet.
+  Property C20 — logging (work in progress: generated obligations only so far).
 -/
+import Babylon.Log.Entry
+
 namespace Babylon.Properties.C20
+open Babylon.Log Babylon.Gen.Log Babylon.Core
+
+theorem gen_constants : sizeofPageTable = 8 ∧ sizeofPtr = 8 ∧ 0 < inlinePageCapacity := by decide
+
 end Babylon.Properties.C20
